@@ -155,7 +155,7 @@ def run(ctx):
                 ok = True
                 msg += " [exception: %s]" % exc["fs:" + key]
             ctx.ob("R13.2", key, ok, msg, c.where())
-    ctx.floor("file-system reads reachable from tracked functions", n_fs, 2)
+    ctx.floor("file-system reads reachable from tracked functions", n_fs, 1)
 
     # ---------------- R13.3 node construction is confined
     SN = "cairo_lang_syntax::node::SyntaxNode"
